@@ -2,9 +2,9 @@ package rules
 
 import (
 	"fmt"
-	"strings"
 	"go/token"
 	"go/types"
+	"strings"
 
 	"golang.org/x/tools/go/ssa"
 
@@ -18,8 +18,9 @@ const digestPkg = "github.com/opencontainers/go-digest"
 // entries that name it.
 type hashSite struct {
 	fn      *ssa.Function
-	from    *ssa.Call // Algorithm.FromBytes(x), or the call of a helper that returns such a digest of one of its arguments
-	dig     ssa.Value // the digest value in fn: from itself, or the extracted result of the helper call
+	from    *ssa.Call   // Algorithm.FromBytes(x), or the call of a helper that returns such a digest of one of its arguments
+	dig     ssa.Value   // the digest value in fn: from itself, or the extracted result of the helper call
+	alts    []ssa.Value // when dig is a φ: the digests of the same bytes (computed on different branches) it merges
 	helper  *ssa.Function
 	bytes   ssa.Value // origin of x
 	create  ssa.CallInstruction
@@ -28,6 +29,20 @@ type hashSite struct {
 	writes  []ssa.CallInstruction
 	inserts []ssa.CallInstruction // IndexInsert / Index.AddDesc of a descriptor whose Digest is the hash
 	descs   []map[string][]ssa.Value
+}
+
+// isDig reports whether v is the digest of the site (or, for a merged site, one of its branch-local digests).
+func (hs *hashSite) isDig(v ssa.Value) bool {
+	o, st := an.Origin(v), an.Strip(v)
+	if o == hs.dig || st == hs.dig {
+		return true
+	}
+	for _, a := range hs.alts {
+		if o == a || st == a {
+			return true
+		}
+	}
+	return false
 }
 
 func isIndexInsert(r *Roles, call ssa.CallInstruction) bool {
@@ -40,14 +55,14 @@ func hashSites(c *core.Ctx) []*hashSite {
 		var out []*hashSite
 		funcs := append(append([]*ssa.Function{}, serverFuncs(c)...), sharedStoreFuncs(c)...)
 		for _, fn := range funcs {
+			var cands []*hashSite
 			an.Calls(fn, func(call ssa.CallInstruction) {
 				fc, ok := call.(*ssa.Call)
 				if !ok {
 					return
 				}
-				var hs *hashSite
 				if an.IsMethod(call, digestPkg, "Algorithm", "FromBytes") && len(fc.Call.Args) == 2 {
-					hs = &hashSite{fn: fn, from: fc, dig: fc, bytes: an.Origin(fc.Call.Args[1])}
+					cands = append(cands, &hashSite{fn: fn, from: fc, dig: fc, bytes: an.Origin(fc.Call.Args[1])})
 				} else if h, ri, pi, ok := hashingHelper(c, fc); ok {
 					// a helper of this module that returns the digest of one of its arguments
 					var dv ssa.Value = fc
@@ -62,13 +77,49 @@ func hashSites(c *core.Ctx) []*hashSite {
 						}
 					}
 					if dv != nil && pi < len(fc.Call.Args) {
-						hs = &hashSite{fn: fn, from: fc, dig: dv, helper: h, bytes: an.Origin(fc.Call.Args[pi])}
+						cands = append(cands, &hashSite{fn: fn, from: fc, dig: dv, helper: h, bytes: an.Origin(fc.Call.Args[pi])})
 					}
 				}
-				if hs == nil {
+			})
+			// digests of the same bytes computed on different branches (one per algorithm choice) and merged in a φ
+			// are one site
+			an.Instrs(fn, func(in ssa.Instruction) {
+				phi, ok := in.(*ssa.Phi)
+				if !ok || len(phi.Edges) < 2 {
 					return
 				}
-				isDig := func(v ssa.Value) bool { return an.Origin(v) == hs.dig || an.Strip(v) == hs.dig }
+				var parts []*hashSite
+				for _, e := range phi.Edges {
+					var m *hashSite
+					for _, cd := range cands {
+						if len(cd.alts) == 0 && (an.Strip(e) == cd.dig || an.Origin(e) == cd.dig) {
+							m = cd
+						}
+					}
+					if m == nil || (len(parts) > 0 && (m.bytes != parts[0].bytes || m.helper != parts[0].helper)) {
+						return
+					}
+					parts = append(parts, m)
+				}
+				merged := &hashSite{fn: fn, from: parts[0].from, dig: phi, helper: parts[0].helper, bytes: parts[0].bytes}
+				var rest []*hashSite
+				for _, cd := range cands {
+					isPart := false
+					for _, pt := range parts {
+						if pt == cd {
+							isPart = true
+						}
+					}
+					if isPart {
+						merged.alts = append(merged.alts, cd.dig)
+					} else {
+						rest = append(rest, cd)
+					}
+				}
+				cands = append(rest, merged)
+			})
+			for _, hs := range cands {
+				isDig := hs.isDig
 				an.Calls(fn, func(c2 ssa.CallInstruction) {
 					if isBlobCreate(r, c2) {
 						if ds, _ := withDigestArgs(r, c2); len(ds) > 0 {
@@ -118,7 +169,7 @@ func hashSites(c *core.Ctx) []*hashSite {
 				if hs.create != nil || len(hs.inserts) > 0 {
 					out = append(out, hs)
 				}
-			})
+			}
 		}
 		return out
 	})
@@ -194,9 +245,9 @@ func runHashBytes(c *core.Ctx) {
 			}
 			var other ssa.Value
 			switch {
-			case an.Origin(x) == hs.dig:
+			case hs.isDig(x):
 				other = y
-			case an.Origin(y) == hs.dig:
+			case hs.isDig(y):
 				other = x
 			default:
 				continue
@@ -494,9 +545,9 @@ func runReferenceWins(c *core.Ctx, r *Roles, hs *hashSite, base string) {
 			continue
 		}
 		switch {
-		case an.Origin(x) == hs.dig:
+		case hs.isDig(x):
 			cmpIf, other = ifi, y
-		case an.Origin(y) == hs.dig:
+		case hs.isDig(y):
 			cmpIf, other = ifi, x
 		}
 	}
